@@ -261,7 +261,7 @@ def _run_linear(init, ops_seq, pol, only):
     return viol, n
 
 
-def linear_search(module, cls, only, depth=7, budget_s=40.0, universe=4):
+def linear_search(module, cls, only, depth=7, budget_s=40.0, universe=4, recursive=False):
     """all call sequences over `universe` keys up to `depth` (and sequences with load/clear/dump up to depth 5), each run on a
     single wrapper from the freshly decorated function: finds failures that depend on state hidden in the closure, which the
     state-rebuilding explorer cannot see.  -> a history-style violation record (with 'linear': True) or None"""
@@ -283,6 +283,8 @@ def linear_search(module, cls, only, depth=7, budget_s=40.0, universe=4):
                         init['queue'] = []
                     if pol in ('lru', 'lfu'):
                         init['counter'] = {}
+                    if recursive:
+                        init['recursive'] = True        # the user function calls the decorated function on the next smaller key
                     for n in range(1, maxlen + 1):
                         for seq in itertools.product(range(len(opset)), repeat=n):
                             if time.time() - t0 > budget_s:
